@@ -215,8 +215,10 @@ func c12Leaves(c c12Cred) []c12Leaf {
 		c12Leaf{top: "$.type", val: []any{"VerifiableCredential", c.Kind}},
 		c12Leaf{top: "$.type[1]", val: c.Kind},
 		c12Leaf{top: "$.issuer", val: c.Issuer},
-		c12Leaf{top: "$.id", val: c.ID},
 	)
+	if c.ID != "" {
+		out = append(out, c12Leaf{top: "$.id", val: c.ID})
+	}
 	return out
 }
 
@@ -650,6 +652,50 @@ func c12Gen(t *rapid.T) c12Case {
 		c.Wallet = append(c.Wallet, c12GenCred(t, i, "base"))
 	}
 	next := nBase
+	// credential identity: ids are not unique in the wild (issuers numbering per subject, a re-issued credential next to
+	// the old one, the same credential as ldp_vc and jwt_vc) and may be absent. Tiered cases then tell the credentials
+	// apart by a "serial" claim instead of the id.
+	tierSerial := false
+	if tiered {
+		tierSerial = rapid.IntRange(0, 2).Draw(t, "tiered.serial") > 0
+		if tierSerial {
+			for i := range c.Wallet {
+				c.Wallet[i].Subject["serial"] = fmt.Sprintf("s%d", i)
+			}
+			switch rapid.SampledFrom([]string{"shared-all", "shared-pairs", "unique", "none", "shared-all-but-one-none"}).Draw(t, "tiered.ids") {
+			case "shared-all":
+				for i := range c.Wallet {
+					c.Wallet[i].ID = "urn:vc:shared"
+				}
+			case "shared-pairs":
+				for i := range c.Wallet {
+					c.Wallet[i].ID = fmt.Sprintf("urn:vc:pair%d", i/2)
+				}
+			case "none":
+				for i := range c.Wallet {
+					c.Wallet[i].ID = ""
+				}
+			case "shared-all-but-one-none":
+				for i := range c.Wallet {
+					c.Wallet[i].ID = "urn:vc:shared"
+				}
+				c.Wallet[rapid.IntRange(0, len(c.Wallet)-1).Draw(t, "tiered.noid")].ID = ""
+			}
+		}
+	} else if len(c.Wallet) > 0 {
+		switch rapid.SampledFrom([]string{"unique", "unique", "unique", "unique", "unique", "share-two", "none-one", "share-all"}).Draw(t, "ids") {
+		case "share-two":
+			if len(c.Wallet) >= 2 {
+				c.Wallet[1].ID = c.Wallet[0].ID
+			}
+		case "none-one":
+			c.Wallet[rapid.IntRange(0, len(c.Wallet)-1).Draw(t, "noid")].ID = ""
+		case "share-all":
+			for i := range c.Wallet {
+				c.Wallet[i].ID = c.Wallet[0].ID
+			}
+		}
+	}
 
 	// 2. definition
 	def := map[string]any{"id": "pd-" + rapid.SampledFrom([]string{"1", "a b", "ü"}).Draw(t, "defid")}
@@ -702,7 +748,14 @@ func c12Gen(t *rapid.T) c12Case {
 				plan.fields = append(plan.fields, f)
 			}
 			// discriminate by kind so that selections are mostly unambiguous
-			if tiered {
+			if tiered && tierSerial {
+				want := fmt.Sprintf("s%d", plan.target)
+				if d == spoiled {
+					want = "s-none"
+				}
+				fields = append(fields, map[string]any{"path": []any{"$.credentialSubject.serial", "$.credentialSubject[0].serial"}, "filter": map[string]any{"type": "string", "const": want}})
+				plan.leaves = append(plan.leaves, "")
+			} else if tiered {
 				want := c.Wallet[plan.target].ID
 				if d == spoiled {
 					want = "urn:vc:none"
@@ -718,6 +771,9 @@ func c12Gen(t *rapid.T) c12Case {
 					fields = append(fields, map[string]any{"path": []any{"$.type[1]"}, "filter": map[string]any{"type": "string", "const": c.Wallet[plan.target].Kind}})
 					plan.leaves = append(plan.leaves, "")
 				case "id":
+					if c.Wallet[plan.target].ID == "" {
+						break
+					}
 					fields = append(fields, map[string]any{"path": []any{"$.id"}, "filter": map[string]any{"type": "string", "pattern": "^" + c12Quote(c.Wallet[plan.target].ID) + "$"}})
 					plan.leaves = append(plan.leaves, "")
 				}
@@ -863,6 +919,37 @@ func c12Gen(t *rapid.T) c12Case {
 		c.Wallet = append(c.Wallet, c12Cred{})
 		copy(c.Wallet[pos+1:], c.Wallet[pos:])
 		c.Wallet[pos] = dc
+	}
+
+	// credentials added under an id that is already in use, and exact duplicates
+	for len(c.Wallet) > 0 && len(c.Wallet) < 8 && rapid.IntRange(0, 4).Draw(t, "idgame?") == 4 {
+		src := c.Wallet[rapid.IntRange(0, len(c.Wallet)-1).Draw(t, "idgame.src")]
+		cp := c12Cred{Fmt: src.Fmt, ID: src.ID, Kind: src.Kind, Issuer: src.Issuer, Proof: src.Proof, NoSig: src.NoSig, Role: "same-id",
+			Subject: jsonmut.Clone(src.Subject).(map[string]any)}
+		switch rapid.SampledFrom([]string{"other-format", "reissue", "exact-duplicate", "decoy-same-id"}).Draw(t, "idgame") {
+		case "other-format":
+			if cp.Fmt == "ldp_vc" {
+				cp.Fmt = "jwt_vc"
+			} else {
+				cp.Fmt = "ldp_vc"
+			}
+			c12GenProof(t, &cp)
+		case "reissue":
+			cp.Subject["reissued"] = rapid.SampledFrom([]string{"2024", "2025"}).Draw(t, "idgame.reissued")
+			if rapid.Bool().Draw(t, "idgame.claim") {
+				cp.Subject["name"] = c12Str(t, "idgame.name")
+			}
+		case "exact-duplicate":
+			cp.Role = "duplicate"
+		case "decoy-same-id":
+			cp = c12GenCred(t, next, "decoy-same-id")
+			next++
+			cp.ID = src.ID
+		}
+		pos := rapid.IntRange(0, len(c.Wallet)).Draw(t, "idgame.pos")
+		c.Wallet = append(c.Wallet, c12Cred{})
+		copy(c.Wallet[pos+1:], c.Wallet[pos:])
+		c.Wallet[pos] = cp
 	}
 
 	raw, err := json.Marshal(def)
